@@ -877,7 +877,7 @@ def run_realsocket(spec, acc):
         client = SocketAsyncRPCClient(path)
         tasks = [asyncio.create_task(client(n, *a)) for n, a in calls]
         gated = [a[0] for n, a in calls if n in ("slow", "doomed")]
-        for _ in range(400):
+        for _ in range(4000):
             if all(g in env.gates for g in gated):
                 break
             await asyncio.sleep(0.005)
@@ -886,7 +886,7 @@ def run_realsocket(spec, acc):
             if fut is not None and not fut.done():
                 fut.cancel() if tag.startswith("x") else fut.set_result(None)
             await asyncio.sleep(0.005)
-        done = await asyncio.wait_for(asyncio.gather(*tasks, return_exceptions=True), 20)
+        done = await asyncio.wait_for(asyncio.gather(*tasks, return_exceptions=True), 60)
         # the synchronous client, from a thread, for the calls that need no gate
         sync_results = []
         plain = [(n, a) for n, a in calls if n not in ("slow", "doomed", "unpicklable")]
@@ -908,7 +908,7 @@ def run_realsocket(spec, acc):
             await asyncio.sleep(0.005)
         await client.close()
         stop.set()
-        await asyncio.wait_for(stask, 20)
+        await asyncio.wait_for(stask, 60)
         return done, plain, sync_results
 
     for calls in spec["callsets"]:
